@@ -53,23 +53,35 @@ func checkMirrorAfterDisk(c *Ctx, rule string, specs []mirrorSpec) {
 			continue
 		}
 		for _, st := range stores {
-			sfn := st.Parent()
-			okW := false
-			for _, w := range sp.writers {
-				for _, call := range callsNamed(sfn, w) {
-					call := call
-					if !reachableAvoiding(sfn, nil, st, func(from *ssa.BasicBlock, si int) bool {
-						f := edgeFactOf(from, si)
-						return f != nil && f.Kind == "nil" && loadIsResultOf(f.V, call)
-					}) {
-						okW = true
-					}
-				}
-			}
+			okW := !reachableWithoutWriter(p, st.Parent(), st, sp.writers)
 			c.Check(rule, key, st.Pos(), okW,
 				"the in-memory "+sp.field+" is updated on a path where its database write ("+joinOr(sp.writers)+") has not succeeded: after a failed write / rolled-back transaction memory and disk disagree")
 		}
 	}
+}
+
+// reachableWithoutWriter: can `target` be reached from the entry of fn without taking the nil-error edge of a call to
+// one of the writers? Path-sensitive on bool locals/parameters (the same flag tested twice is consistent).
+func reachableWithoutWriter(p *Program, fn *ssa.Function, target ssa.Instruction, writers []string) bool {
+	var calls []*ssa.Call
+	for _, w := range writers {
+		calls = append(calls, callsNamed(fn, w)...)
+	}
+	mi := &modeInterp{p: p, preds: map[string]bool{}, noDescend: true, depthLimit: 0,
+		target: func(ins ssa.Instruction, env modeEnv) bool { return ins == target },
+		cutEdge: func(from *ssa.BasicBlock, si int) bool {
+			f := edgeFactOf(from, si)
+			if f == nil || f.Kind != "nil" {
+				return false
+			}
+			for _, call := range calls {
+				if loadIsResultOf(f.V, call) {
+					return true
+				}
+			}
+			return false
+		}}
+	return mi.reachable(fn, modeEnv{}, 0) != nil
 }
 
 func joinOr(xs []string) string {
